@@ -219,6 +219,13 @@ impl Repository {
             .context(error::TransportSnafu { url })?;
         file.write_all(&root_file_data)
             .await
+            .with_context(|_| error::CacheFileWriteSnafu {
+                path: outpath.clone(),
+            })?;
+        // `tokio::fs::File` completes writes in the background: without a flush the file can still
+        // be empty when this function returns (or stay so if the process exits first).
+        file.flush()
+            .await
             .context(error::CacheFileWriteSnafu { path: outpath })
     }
 
